@@ -240,12 +240,24 @@ def run(tier, seed):
         text = src.text(crlf=(r.rng.random() < 0.05))
         path = r.rng.choice(["test_gen.py", "conftest.py"])
         progs.append(("p%d" % i, path, text, src.features))
+    keys = {}
     for (name, path, text, feats) in progs:
         cases.case(name, {"features": sorted(feats)})
         cases.text("t0", text)
         cases.raw("disk %s t0" % path)
-        cases.op("analyze", path, "t0")
-        cases.q("defs", path); cases.q("usages", path); cases.q("undeclared", path)
+        # an earlier version of the same length whose line breaks sit elsewhere (a blank line further down moved to
+        # the top): every position below is judged on the final text, so nothing of the earlier layout may survive
+        ls = text.split("\n")
+        blanks = [j for j in range(3, len(ls) - 1) if ls[j] == "" and not ls[j + 1].startswith((" ", "\t")) and "\r" not in text]
+        if blanks and r.rng.random() < 0.4 and "witness" not in feats:
+            j = r.rng.choice(blanks)
+            prev = "\n".join([""] + ls[:j] + ls[j + 1:])
+            if len(prev) == len(text):
+                cases.text("tp", prev)
+                cases.op("analyze", path, "tp")
+                feats = set(feats) | {"same-size-predecessor"}
+        ka = cases.op("analyze", path, "t0")
+        keys[name] = (ka, cases.q("defs", path), cases.q("usages", path), cases.q("undeclared", path))
         if any(ord(ch) > 127 for ch in text) or "strform" in feats:
             r.nontrivial.add(tuple(sorted(feats)))
     r.samples = [{"case": p[0], "path": p[1], "text": p[2]} for p in progs[:2]]
@@ -254,15 +266,16 @@ def run(tier, seed):
     bad = r.correspond(cases, ia, ma)
     ncmp = 0
     for (name, path, text, feats) in progs:
-        if ia.get((name, 1), "").startswith("PANIC"):
+        ka, kd, ku, kn = keys[name]
+        if ia.get((name, ka), "").startswith("PANIC"):
             continue
         try:
-            impl_defs = [parse_def(x) for x in parse_list(ia.get((name, 2), "[]"))]
+            impl_defs = [parse_def(x) for x in parse_list(ia.get((name, kd), "[]"))]
         except Exception:
             continue
         same = not any(k[0] == name for k in bad)
-        ncmp += check_positions(r, name, text, impl_defs, parse_list(ia.get((name, 3), "[]")),
-                                parse_list(ia.get((name, 4), "[]")), same, cases)
+        ncmp += check_positions(r, name, text, impl_defs, parse_list(ia.get((name, ku), "[]")),
+                                parse_list(ia.get((name, kn), "[]")), same, cases)
     r.stats["spans_compared_with_cpython_tokens"] = ncmp
     base = "/dev/shm/plsv-c15-%d" % os.getpid()
     import shutil
